@@ -99,7 +99,7 @@ def call_builtin(it, name, pos, kw):
                 return a.name in ("np.floating", "np.float64")
         raise PathAbort("issubclass", ctx.cur_line)
     if name == "callable":
-        return isinstance(pos[0], (FuncVal, I.Builtin, I.BoundMethod)) or (isinstance(pos[0], Opaque) and "callable" in pos[0].what)
+        return isinstance(pos[0], (FuncVal, I.Builtin, I.BoundMethod)) or (isinstance(pos[0], Opaque) and "callable" in pos[0].what) or bool(getattr(pos[0], "_pyvc_native", False))
     if name == "range":
         args = [a.fn() if isinstance(a, Arr) and a.ndim == 0 else a for a in pos]
         if all(isinstance(a, int) for a in args):
@@ -577,10 +577,17 @@ def call_np(it, name, pos, kw):
             a = N.snap(a)
             n = a.shape[0]
             zero = cast_elem(0, a.dtype)
-            return Arr((n, n), lambda i, j: T.Ite(T.eq(i, j), a.fn(i), zero), a.dtype)
+            d = Arr((n, n), lambda i, j: T.Ite(T.eq(i, j), a.fn(i), zero), a.dtype)
+            d.diag_of = a
+            return d
         raise PathAbort("np.diag of matrix", ctx.cur_line)
     if name == "tile":
-        raise PathAbort("np.tile", ctx.cur_line)
+        a = _arr(it, pos[0])
+        reps = it.concrete_items(pos[1]) if not T.is_scalar(pos[1]) else [pos[1]]
+        if a.ndim == 1 and reps is not None and len(reps) == 2 and isinstance(reps[1], int) and reps[1] == 1:
+            a = N.snap(a)
+            return Arr((reps[0], a.shape[0]), lambda m, i: a.fn(i), a.dtype)
+        raise PathAbort("np.tile form", ctx.cur_line)
     if name == "array2string":
         return Opaque("str")
     if name == "errstate":
